@@ -33,6 +33,31 @@ TEXT = {
    text='pipe.New is driven by scripts that empty and refill the queue repeatedly, park values in the input buffer right before cancel (sends performed by the cancelling goroutine itself), cancel with backlog and slow receiver, close the send side with backlog / racing a receive / racing cancel, build backlogs to 10^4, at capacities 0-8 with 1-3 senders. Online: no send may be pending at a quiescent point before cancel/close and nothing closes early; final: the drained sequence is an order-preserving duplicate-free selection of what was sent, every send completed before cancel() is delivered, the receive side closes. 300 (quick) / 6000 (thorough) concurrent real-time histories are checked with porcupine, plus a 60k / 600k value soak.',
    note='Scripts in which a user send can race the library\'s close of the send side run in the plain build only (the race detector reports close-vs-send, a documented consequence of the API); everything else also runs under -race. A porcupine timeout is inconclusive.',
    ref='DESIGN.md §6 C08'),
+ 'C09': dict(
+   technique='environment-move scheduler in synctest bubbles; per-element virtual processing delays permute completion order of in-flight calls; multiset oracle on unique ids + per-element call counters + goroutine census; Go race detector, GOMAXPROCS varied per child; real-time soak',
+   text='fork.Map/FMap/Filter/Partition/ForEach/Void in Pure and Try modes with 1-8 (16, 64 thorough) workers: all interleavings of producer/consumer/cancel moves for inputs 0-3 with 1-3 workers, then seed-random scripts over inputs up to 60 (200 for 16+ workers) with delay families that make in-flight calls complete in many different orders (evidence counts distinct output orders). Online the delivered values must be a sub-multiset of the sequential result; at completion multiset equality, exactly one call per element, all channels closed, census empty; after cancel the census empties within the bound, channels close, and no element was handed to the user function twice. A send on a closed channel kills the child and is attributed via the write-ahead log; any race report between golem frames is a violation.',
+   note='Fail-fast (Lift) mode is not exercised for fork stages (the property speaks of Try-mode errors). Distinct output orders are counted per child process.',
+   ref='DESIGN.md §6 C09'),
+ 'C10': dict(
+   technique='synctest-bubble scheduler + plain left fold oracle over commutative monoids with zero and non-zero identities; virtual delays inside Combine vary the distribution of elements over workers; race detector; real-time soak',
+   text='fork.Fold with sum, product of odd numbers, max over negatives, min over positives, bitwise and/or/xor, for 1-8 (16, 64) workers and input lengths 0,1,2,3,par-1,par,par+1,2par+1,17,40 with random 64-bit elements: exactly one value equal to the plain left fold from the identity must be delivered, the channel must close and no goroutine may remain.',
+   note='Inputs are chosen so that a wrong starting element or a lost/doubled element changes the result (odd factors, all-negative maxima, ...).',
+   ref='DESIGN.md §6 C10'),
+ 'C11': dict(
+   technique='synctest virtual clock: timestamps of user-function calls and of receipts vs tick arithmetic; successive-sequence prefix monitor; cancel at every script position with goroutine census',
+   text='Emit and Unfold at capacities 0-8 and frequencies 1 ns, 1 ms, 1 s, 1 h: always-ready consumers (exactly one value per tick, at the tick), idle periods longer than the capacity followed by bursts (back-pressure), random schedules, Try failure bitmaps, cancel inserted at every position. f must be called on consecutive arguments once each, the k-th Emit call not before k ticks and never less than a tick after the previous one, no value available before its tick; after cancel the stage stops and closes within its tick bound.',
+   note='Time is the bubble\'s virtual clock: all bounds are exact arithmetic, no wall clock.',
+   ref='DESIGN.md §6 C11'),
+ 'C12': dict(
+   technique='synctest-bubble scheduler; elements tagged (input, index); online interleaving checker and close-implies-complete monitor at every quiescent point; goroutine census; race detector; real-time soak',
+   text='Join with 0-5 inputs: all interleavings of per-input producer programs (sends, close) and receives for tiny shapes (no inputs, all empty, 1-3 inputs of 0-2 elements) at capacities 0-2, then seed-random scripts with up to 5 inputs of 0-20 elements, capacities 0-4, bursts and inputs left open until the end game. At every quiescent point the output must be an order-respecting sub-multiset of the inputs and must not be closed while an input is open or undelivered; at completion multiset equality, per-input order, closure and an empty census.',
+   note='Cancelled runs of Join are covered by C06.',
+   ref='DESIGN.md §6 C12'),
+ 'C13': dict(
+   technique='synctest virtual clock: two-pointer sweep over delivery timestamps for the window bound, per-element schedule bounds for the always-available/always-ready case; order/closure oracle; race detector',
+   text='Throttling for ops 1-6, intervals 1 ms and 1 s, capacities 0-4, inputs up to 60: always-available input with an always-ready consumer (observed at whole and half intervals), consumer stalled for several intervals then draining (the worst-case burst), idle input then a burst of arrivals, cancel mid-stream, and seed-random arrival/consumer/clock schedules. Delivered must equal the input in order and close with it; before cancel no half-open window of one interval may hold more than 2*ops+1+c deliveries; in the always-available/always-ready case element i must lie in [floor(i/ops)*interval, +interval]. Evidence records the largest window count seen.',
+   note='The bound is checked exactly as stated; tighter bounds the code happens to meet are not demanded.',
+   ref='DESIGN.md §6 C13'),
  'C14': dict(
    technique='reference-model monitor: real combinators drained by the documented loop vs strict list interpreter of the same expression tree; per-node callback-argument log; logical step budget for runaway loops',
    text='All expression trees to depth 3 over a leaf/function alphabet plus seed-random trees to depth 7 are built from fresh leaves, drained and run through ForEach with a visitor failing at several positions; result, visited prefix, returned error, callback arguments and source slices are compared with a list interpreter. Exploration, exhaustive on the small bound.',
